@@ -45,13 +45,21 @@ class PermutationMapper:
     def __init__(self, wildcard=None, ignore_case=False, can_map_to_nothing=[]):
         self.wildcard = wildcard
         self.ignore_case = ignore_case
+
+        def _is_wildcard(x):
+            if wildcard is None:
+                return False
+            if ignore_case:
+                return x.lower() == wildcard.lower()
+            return x == wildcard
+
         self.can_map_to_nothing = sorted(
             (
                 can_map_to_nothing
                 if isinstance(can_map_to_nothing, list)
                 else [can_map_to_nothing]
             ),
-            key=lambda x: 1 if wildcard is not None and x in wildcard else 0,
+            key=lambda x: 1 if _is_wildcard(x) else 0,
         )
 
     def permute(self, pattern, structure):
